@@ -171,6 +171,31 @@ def register(reg):
                           ("minimal-over-segments", "all(implies(%s, result[0] * result[0] <= d2seg(%s)) for k in range(0, len(Xp) - 1))"
                            % (ns("k"), sk("k")))]))
 
+    # ---------------------------------------------------------------- mapping.__projOnTrack: the wrapper used by map-matching
+    from specs import track_model
+    track_model.register_model(reg)
+    T = "tracklib.core.track:Track."
+    for nm, F in (("getX", "X"), ("getY", "Y")):
+        reg.add(Spec(T + nm, dict(self="Track"), "list[float]", locals={F: "list[float]"},
+                     loops={"1": LoopSpec(inv=["len(%s) == i" % F, "all(same(%s[r], %s(self, r)) for r in range(0, i))" % (F, F)])},
+                     ensures=[("one-per-observation", "len(result) == npts(self) and all(same(result[r], %s(self, r)) for r in range(0, npts(self)))" % F)]))
+    TS = "X(track, %(k)s), Y(track, %(k)s), X(track, %(k)s + 1), Y(track, %(k)s + 1), point.E, point.N"
+    TNS = "(abs(X(track, %(k)s) - X(track, %(k)s + 1)) + abs(Y(track, %(k)s) - Y(track, %(k)s + 1)) >= 1e-16)"
+    tsk = lambda k: TS % dict(k=k)
+    tns = lambda k: TNS % dict(k=k)
+    reg.add(Spec("tracklib.algo.mapping:__projOnTrack", dict(point="ENUCoords", track="Track"), "tuple[ENUCoords,float,int]",
+                 fresh=["ENUCoords"],
+                 requires=["npts(track) >= 2", "not isnan(point.E) and not isnan(point.N)",
+                           "all(not isnan(X(track, r)) and not isnan(Y(track, r)) for r in range(0, npts(track)))",
+                           "any(%s for k in range(0, npts(track) - 1))" % tns("k"),
+                           "all(implies(%s, d2seg(%s) < 1e300 * 1e300) for k in range(0, npts(track) - 1))" % (tns("k"), tsk("k"))],
+                 ensures=[("segment-index", "0 <= result[2] and result[2] < npts(track) - 1 and %s" % tns("result[2]")),
+                          ("a-new-point-on-that-segment", "isnew(result[0]) and result[0].E == nearx(%s) and result[0].N == neary(%s) and result[0].U == 0"
+                           % (tsk("result[2]"), tsk("result[2]"))),
+                          ("distance-to-the-returned-point", "not isnan(result[1]) and result[1] >= 0 and result[1] * result[1] == d2seg(%s)" % tsk("result[2]")),
+                          ("minimal-over-the-segments", "all(implies(%s, result[1] * result[1] <= d2seg(%s)) for k in range(0, npts(track) - 1))"
+                           % (tns("k"), tsk("k")))]))
+
 
 def lemmas(reg):
     """nearest-is-minimal: for every point of the segment (parameter s in [0,1]) the squared distance from P
@@ -194,7 +219,9 @@ def lemmas(reg):
 
 
 USES_LIB = True
-FUNCTIONS = [G + n for n in ("cartesienne", "projection_droite", "proj_segment", "proj_polyligne")]
+FUNCTIONS = [G + n for n in ("cartesienne", "projection_droite", "proj_segment", "proj_polyligne")] + [
+    "tracklib.core.track:Track.getX", "tracklib.core.track:Track.getY", "tracklib.algo.mapping:__projOnTrack"]
 ASSUMPTIONS = ["segments are non-degenerate (proj_polyligne skips segments of L1 length < 1e-16; a polyline made only of such "
                "segments leaves xproj unbound: outside the contract)",
-               "math.sqrt: r >= 0 and r*r == x (trusted axiom)"]
+               "math.sqrt: r >= 0 and r*r == x (trusted axiom)",
+               "__projOnTrack: the polyline has at least two fixes with numeric coordinates and at least one non-skipped segment; squared distances below 1e600"]
